@@ -399,3 +399,60 @@ def c01_bounded(tier="quick", seed=0):
                       witness=(fails[0][1] if fails else None), confirmed=True if fails else None,
                       domain=sum(1 for n, _ in cases if n.split(".")[0] == g), key=f"C01.bounded.placements.{g}"))
     return out
+
+
+@groups.group(id="C01.struct.process-state", prop="C01", kind="K3", functions=["microjs (module-level state)"])
+def c01_process_state(tier="quick", seed=0):
+    """a deadline belongs to one evaluation: nothing that carries one (a compiled regular expression with its poll
+    callback, a VM) can be kept in the process beyond it, because no module-level or class-level container is ever
+    written, nothing is stored on a class, and no function memoises (the analysis of C12)"""
+    from contracts.C12_context import process_state
+    return process_state("C01", tier, seed)
+
+
+def _history_case(args):
+    """the deadline of an evaluation is its own: (a) a pattern text first used where no limit applies is still stopped
+    in a limited context; (b) after a timed-out evaluation a later harmless one with the same pattern text, in a new
+    context or in the same one, is not stopped by the old deadline"""
+    import time as _t
+    name, src = args
+    from microjs import Context
+    from microjs.errors import TimeLimitError
+    T = 0.25
+    long_subject = "a" * 32
+    short = src.replace(long_subject, "a" * 10)
+    bad = []
+    if short == src:
+        return name, ["placement has no subject to shorten"]
+    try:
+        Context().eval(short)                                   # warm-up without any limit
+    except Exception as e:  # noqa
+        bad.append(f"warm-up failed: {type(e).__name__}")
+    k, dt = _run_case(src, T, None)
+    if k != "TimeLimitError" or dt > T + 3.0:
+        bad.append(f"after a warm-up in an unlimited context: {k} after {dt:.2f}s (time_limit={T})")
+    _t.sleep(T + 0.1)
+    k, dt = _run_case(short, 5.0, None)
+    if not k.startswith("returned"):
+        bad.append(f"harmless evaluation in a NEW context after a timed-out one: {k}")
+    c = Context(time_limit=1.0)
+    try:
+        c.eval("function rx(s) { return " + short.replace("'" + "a" * 10 + "'", "s") + " } rx('" + "a" * 10 + "')")
+        _t.sleep(1.1)
+        c.eval("rx('" + "a" * 10 + "')")
+    except TimeLimitError:
+        bad.append("second evaluation in the SAME context (started after the first one's deadline had passed) was stopped at once")
+    except Exception as e:  # noqa
+        bad.append(f"same-context history failed: {type(e).__name__}: {str(e)[:60]}")
+    return name, bad
+
+
+@groups.group(id="C01.bounded.history", prop="C01", kind="B", functions=["microjs.context:Context.eval", "microjs.values:JSRegExp"])
+def c01_history(tier="quick", seed=0):
+    import multiprocessing as mp
+    names = ["regex-test", "regex-exec", "regex-ctor", "regex-string-pattern", "regex-match", "regex-replace", "regex-lookahead", "regex-sticky"]
+    cases = [(n, REGEX[n]) for n in names]
+    with mp.get_context("fork").Pool(8) as pool:
+        res = pool.map(_history_case, cases)
+    return [ob(f"C01.bounded.history.{n}", not b, "B", "deadline independent of earlier evaluations" if not b else b[0],
+               witness=(REGEX[n] if b else None), confirmed=True if b else None, domain=3) for n, b in res]
